@@ -21,7 +21,8 @@ import (
 	"github.com/welllog/golib/zzsim/stime"
 )
 
-const domain = 16
+// domain is the number of distinct keys of a run (per-run parameter, 16..256).
+var domain = 16
 
 // olist is the API both list types share.
 type olist[K any] interface {
@@ -53,7 +54,21 @@ type adapter[K any] struct {
 
 type pair struct{ A, B int }
 
-var lenLex = []string{"", "a", "b", "z", "aa", "ab", "ba", "zz", "aaa", "aab", "zzz", "aaaa", "abcd", "zzzz", "aaaaa", "zzzzz"}
+// lenLexKey(i): the i-th string in (length, lexicographic) order over the alphabet a..z.
+func lenLexKey(i int) string {
+	if i < 26 {
+		return string(rune('a' + i))
+	}
+	i -= 26
+	return string([]byte{byte('a' + i/26), byte('a' + i%26)})
+}
+
+func lenLexIdx(k string) int {
+	if len(k) == 1 {
+		return int(k[0] - 'a')
+	}
+	return 26 + int(k[0]-'a')*26 + int(k[1]-'a')
+}
 
 func ordinary[K interface {
 	~int | ~string | ~uint16
@@ -133,7 +148,12 @@ func gen(r *sim.Rng, tier string) *sim.Case {
 	}
 	c.Params["start"] = start
 	c.Params["dist"] = r.Pick(4, 2, 2, 2, 2, 2)
+	dom := []int{16, 16, 16, 64, 200, 256}[r.N(6)]
+	c.Params["domain"] = dom
 	maxOps := 60
+	if dom > 16 {
+		maxOps = 40 + dom // enough inserts to build long lists
+	}
 	if tier == "thorough" {
 		maxOps = 150
 	}
@@ -154,12 +174,29 @@ func gen(r *sim.Rng, tier string) *sim.Case {
 	} else if w[8] == 0 {
 		w[8] = 0
 	}
-	writeMask := r.N(1<<domain) | 1<<r.N(domain)
 	var wk []int
-	for i := 0; i < domain; i++ {
-		if writeMask&(1<<i) != 0 {
+	keep := r.Range(30, 100)
+	for i := 0; i < dom; i++ {
+		if r.Pct(keep) {
 			wk = append(wk, i)
 		}
+	}
+	if len(wk) == 0 {
+		wk = append(wk, r.N(dom))
+	}
+	// queries and bounds like to sit at the extremes
+	edge := func() int {
+		switch r.N(6) {
+		case 0:
+			return 0
+		case 1:
+			return dom - 1
+		case 2:
+			return wk[len(wk)-1]
+		case 3:
+			return wk[0]
+		}
+		return r.N(dom)
 	}
 	for i := 0; i < n; i++ {
 		k := r.Pick(w...)
@@ -168,21 +205,18 @@ func gen(r *sim.Rng, tier string) *sim.Case {
 		case "Set", "SetNx", "SetX", "Remove":
 			op.K = wk[r.N(len(wk))]
 			if r.Pct(10) {
-				op.K = r.N(domain)
+				op.K = edge()
 			}
 		case "Get", "GetNode":
-			op.K = r.N(domain)
+			op.K = edge()
 		case "Range", "All":
 			op.D = r.Pick(3, 1, 1, 1) // stop after D callbacks (0 = never)
 		case "RangeWithStart":
-			op.K = r.N(domain)
+			op.K = edge()
 			op.D = r.Pick(3, 1, 1, 1)
 		case "RangeWithRange":
-			op.K = r.N(domain)
-			op.Ks = []int{r.N(domain + 1)}
-			if op.Ks[0] == domain {
-				op.Ks[0] = domain - 1
-			}
+			op.K = edge()
+			op.Ks = []int{edge()}
 			op.D = r.Pick(3, 1, 1, 1)
 		}
 		c.Ops = append(c.Ops, op)
@@ -274,6 +308,12 @@ func execTyped[K any](c *sim.Case, ad *adapter[K], out *sim.WorkerOut, dg *engc.
 	for idx, op := range c.Ops {
 		var v *sim.Violation
 		mutating := false
+		if op.K < 0 || op.K >= domain {
+			op.K = ((op.K % domain) + domain) % domain
+		}
+		if len(op.Ks) > 0 && (op.Ks[0] < 0 || op.Ks[0] >= domain) {
+			op.Ks = []int{((op.Ks[0] % domain) + domain) % domain}
+		}
 		if isZero && len(md.m) == 0 {
 			zeroTouched[op.Op] = true
 		}
@@ -498,6 +538,13 @@ func cmpEnum[K any](ad *adapter[K], md *model, name string, idx int, ks []K, vs 
 }
 
 func exec(c *sim.Case, out *sim.WorkerOut) (*sim.Violation, bool) {
+	domain = c.P("domain")
+	if domain < 16 {
+		domain = 16
+	}
+	if domain > 256 {
+		domain = 256
+	}
 	smrand.Word = towerWords(c.P("dist"), c.EnvSeed)
 	smrand.Words, smrand.Sources = 0, 0
 	stime.Clock = int64(c.EnvSeed % 1000000007)
@@ -509,9 +556,9 @@ func exec(c *sim.Case, out *sim.WorkerOut) (*sim.Violation, bool) {
 	case 0:
 		v, nt = execTyped(c, ordinary(start, func(i int) int { return i*3 - 7 }, func(k int) int { return (k + 7) / 3 }), out, dg)
 	case 1:
-		v, nt = execTyped(c, ordinary(start, func(i int) string { return fmt.Sprintf("k%02d", i) }, func(k string) int { var i int; fmt.Sscanf(k, "k%02d", &i); return i }), out, dg)
+		v, nt = execTyped(c, ordinary(start, func(i int) string { return fmt.Sprintf("k%03d", i) }, func(k string) int { var i int; fmt.Sscanf(k, "k%03d", &i); return i }), out, dg)
 	case 2:
-		v, nt = execTyped(c, ordinary(start, func(i int) uint16 { return uint16(i * 4099) }, func(k uint16) int { return int(k) / 4099 }), out, dg)
+		v, nt = execTyped(c, ordinary(start, func(i int) uint16 { return uint16(i * 257) }, func(k uint16) int { return int(k) / 257 }), out, dg)
 	case 3:
 		v, nt = execTyped(c, withCmp(start, func(a, b int) int { return a - b }, func(i int) int { return i }, func(k int) int { return k }, func(i int) int { return i }), out, dg)
 	case 4:
@@ -523,7 +570,7 @@ func exec(c *sim.Case, out *sim.WorkerOut) (*sim.Violation, bool) {
 			}
 			return a.B - b.B
 		}
-		v, nt = execTyped(c, withCmp(start, cmp, func(i int) pair { return pair{i / 4, i % 4} }, func(k pair) int { return k.A*4 + k.B }, func(i int) int { return i }), out, dg)
+		v, nt = execTyped(c, withCmp(start, cmp, func(i int) pair { return pair{i / 16, i % 16} }, func(k pair) int { return k.A*16 + k.B }, func(i int) int { return i }), out, dg)
 	default:
 		cmp := func(a, b string) int {
 			if len(a) != len(b) {
@@ -537,11 +584,7 @@ func exec(c *sim.Case, out *sim.WorkerOut) (*sim.Violation, bool) {
 			}
 			return 0
 		}
-		idx := map[string]int{}
-		for i, s := range lenLex {
-			idx[s] = i
-		}
-		v, nt = execTyped(c, withCmp(start, cmp, func(i int) string { return lenLex[i] }, func(k string) int { return idx[k] }, func(i int) int { return i }), out, dg)
+		v, nt = execTyped(c, withCmp(start, cmp, lenLexKey, lenLexIdx, func(i int) int { return i }), out, dg)
 	}
 	out.Faults["tower_word_drawn"] += smrand.Words
 	if c.P("dist") != 0 {
